@@ -17,6 +17,7 @@ def gen_docs(seed, tier):
     from odxgen import gen as G
     from props.c01 import batches, overlapping_variant
     big = tier == "thorough"
+    FIXED_VALUES.clear()
     rng = random.Random(f"{seed}/C02/cases")
     for comps in batches(G.enum_struct_offsets(), 24):
         yield "enum-struct-offsets", comps
